@@ -40,7 +40,8 @@ OBLIGATIONS = [
     # Axi2Clk / Axi2ClkFSM sequencing
     'Axi.Clk.stepG_eq_step', 'Axi.Clk.train_from_low', 'Axi.Clk.clk_counts_accepted_beat', 'Axi.Clk.pulseTrain_count',
     'C16.clk_generated_counts_accepted_beat', 'Axi.Clk.inv_step', 'Axi.Clk.clk_oracle_accepts_model',
-    'Axi.Clk.clk_oracle_accepts_generated', 'Axi.Clk.clk_stale_count_counterexample',
+    'Axi.Clk.clk_oracle_accepts_generated', 'Axi.Clk.clk_counts_from_clear', 'Axi.Clk.inv_run', 'Axi.Clk.clk_back_to_back',
+    'Axi.Clk.clk_back_to_back_example', 'Axi.Clk.clk_accepts_while_counting_counterexample',
 ]
 
 T1_CLASSES = ['Reg', 'And2', 'Or2', 'Not', 'Buf', 'Range', 'Constant', 'Axi2ClkFSM', 'VitisKernelFSM']
@@ -404,7 +405,8 @@ class Batch:
             self.lines.append(f'oa2r|{W}|{ost}|{oc}')
             j['py_verdicts'] = [py_oracle_a2r(W, o_init, tr)]
         elif kind == 'clk':
-            # strict: every accepted beat counts (re-derives the stale-count finding); tolerant: what is proved of the model
+            # strict: additionally no beat may be accepted while a run is in progress (re-derives the finding
+            # C16-axi2clk-accepts-while-counting); tolerant: what is proved of the model
             self.lines.append(f'oclk|1,{cfg}|{ost}|{oc}')
             self.lines.append(f'oclk|0,{cfg}|{ost}|{oc}')
             j['py_verdicts'] = [py_oracle_clk(True, int(cfg), o_init, tr), py_oracle_clk(False, int(cfg), o_init, tr)]
@@ -461,40 +463,32 @@ def py_oracle_a2r(W, o0, tr):
 
 
 def py_oracle_clk(strict, CW, o0, tr):
-    """transcription of Spec.Clk.check: phase = ('idle', fresh) | ('high', T, k) | ('low', T, k) | ('fin',) | ('unknown',)"""
-    ph, stale, o = ('idle', True), False, o0
+    """transcription of Spec.Clk.check: phase = ('idle',) | ('high', T, k) | ('low', T, k) | ('fin',) | ('unknown',)"""
+    ph, o = ('idle',), o0
     for t, (i, o2) in enumerate(tr):
         start, reset, done, tvalid, tdata = i
         acc = tvalid == 1 and o[3] == 1
         act = 0 if (reset == 1 or done == 1) else (1 if start == 1 else o[2])
         exp = {'idle': (0, 0), 'high': (1, 0), 'low': (0, 0), 'fin': (0, 1), 'unknown': None}[ph[0]]
+        busy = ph[0] in ('high', 'low', 'fin')
         cl = [('ready_iff_active', o[3] == o[2] and o2[3] == o2[2]), ('active_rule', o2[2] == act),
               ('clk_out_follows_accepted_beat', exp is None or o2[0] == exp[0]),
-              ('load_outs_after_last_pulse', exp is None or o2[1] == exp[1])]
+              ('load_outs_after_last_pulse', exp is None or o2[1] == exp[1]),
+              ('accepted_beat_is_counted', not (strict and acc and busy))]
         for n, ok in cl:
             if not ok:
-                return f'fail {t} {n} {1 if stale else 0}'
+                return f'fail {t} {n} 0'
         if ph[0] == 'idle':
             if acc:
-                if 1 <= tdata < (1 << CW):
-                    if ph[1]:
-                        ph, stale = ('high', tdata, 0), False
-                    elif strict:
-                        ph, stale = ('high', tdata, 0), True
-                    else:
-                        ph, stale = ('unknown',), False
-                else:
-                    ph, stale = ('unknown',), False
-            else:
-                ph, stale = ('idle', True), False
+                ph = ('high', tdata, 0) if 1 <= tdata < (1 << CW) else ('unknown',)
         elif ph[0] == 'high':
             ph = ('low', ph[1], ph[2] + 1)
         elif ph[0] == 'low':
             ph = ('fin',) if ph[2] == ph[1] else ('high', ph[1], ph[2])
         elif ph[0] == 'fin':
-            ph, stale = ('idle', False), False
+            ph = ('idle',)
         else:
-            ph, stale = (('idle', False) if o2[1] == 1 else ('unknown',)), False
+            ph = ('idle',) if o2[1] == 1 else ('unknown',)
         o = o2
     return 'ok'
 
@@ -629,7 +623,7 @@ def analyse(res, j, out):
                           outputs={'a2r': 'active,loaded,q,tready', 'r2a': 'tvalid,tdata,tlast,tkeep,sent,active',
                                    'clk': 'clk_out,load_outs,active,tready'}[kind],
                           done_while_pending=(kind == 'r2a' and len(v) > 3 and v[3] == '1'),
-                          stale_count=(kind == 'clk' and len(v) > 3 and v[3] == '1')))
+                          ))
         elif v[0] not in ('ok', 'stop'):
             res.broken.append(('correspondence', 'oracle', f'unexpected verdict {verdict!r}'))
 
